@@ -66,7 +66,7 @@ let program () =
   let m = stmts () in
   { pglobals = gs; pfuns = fs; pmain = m }
 
-let show_err = function EStuck -> "stuck" | EUaf -> "uaf" | ESelfAssign -> "selfassign" | EBounds -> "bounds" | EFuel -> "fuel"
+let show_err = function EStuck -> "stuck" | EUaf -> "uaf" | EBounds -> "bounds" | EFuel -> "fuel"
 let show = function
   | Er e -> "ER " ^ show_err e
   | Ok outs ->
